@@ -283,12 +283,14 @@ CLASSGEN = {
     "DescriptorTag": ClassGen("DescriptorTag", desc_fields, length_fields=[(1, 1, "big")]),
     "PMTStream": ClassGen("PMTStream", stream_fields, length_fields=[(3, 2, "big")]),
     "MPEGPacketPMT": ClassGen("MPEGPacketPMT", pmt_valid, length_fields=[(4, 1, "big"), (5, 1, "big"), (6, 2, "big"), (15, 2, "big")]),
-    "PES": ClassGen("PES", pes_valid, length_fields=[(4, 1, "big"), (8, 2, "big")]),
+    "PES": ClassGen("PES", pes_valid, length_fields=[(4, 1, "big"), (8, 2, "big")],
+                    groups=[("extension_w1", "extension_w2", "header_data")]),
     "STANAG4609": ClassGen("STANAG4609", stanag_valid, length_fields=[(4, 1, "big")],
                            # _unknown/_unknown2 are encoded but private: outside C14's quantifier ("public fields")
                            eq_fields=["sync", "tei", "pusi", "pid", "transport_priority", "tsc", "continuitycounter",
                                       "adaption_ctrl", "adaption_field", "payload", "streamid", "extension_w1",
-                                      "extension_w2", "header_data", "stanag_counter", "time_us"]),
+                                      "extension_w2", "header_data", "stanag_counter", "time_us"],
+                           groups=[("extension_w1", "extension_w2", "header_data")]),
 }
 
 ORACLES = {}
